@@ -111,6 +111,11 @@ def gen_ontology_spec(rng):
     et = G.base_eventtype()
     if rng.random() < 0.6:
         et['relations'] = [G.base_relation('p', 'q', confidence=rng.choice([5, 5, None, 10]))]
+        if rng.random() < 0.15:
+            # created the way create_relation() allows: without a description and a predicate (the schema demands both, so the
+            # ontology must not pass validate(); if it does, it must serialize)
+            et['relations'][0]['free']['description'] = None
+            et['relations'][0]['free']['predicate'] = None
     if rng.random() < 0.4:
         et['props'][0]['assocs'] = [G.base_assoc('c.a')]
         if rng.random() < 0.4:
@@ -393,7 +398,10 @@ class C08(Property):
             o.validate()
         except Exception:
             return None, False
-        root = etree.fromstring(etree.tostring(o.generate_xml()))
+        try:
+            root = etree.fromstring(etree.tostring(o.generate_xml()))
+        except Exception:
+            return None, False      # (own_output reports a valid ontology that cannot be serialized)
         applied = apply_xml_edit(random.Random(case['seed']), root, case['edit'])
         doc = wrap(root)
         if not schema().validate(doc):
